@@ -199,6 +199,66 @@ fn run_both_k(_case: &Value, inputs: &Value) -> Value {
     json!({"stepper": stepper, "clvmr": cl})
 }
 
+pub fn build_shape(a: &mut Allocator, shape: &Value, leaves: &mut std::slice::Iter<Value>) -> NodePtr {
+    if shape.is_string() {
+        let b = bytes_of(leaves.next().unwrap());
+        a.new_atom(&b).unwrap()
+    } else {
+        let l = build_shape(a, &shape[0], leaves);
+        let r = build_shape(a, &shape[1], leaves);
+        a.new_pair(l, r).unwrap()
+    }
+}
+
+// convert_from_clvm_rs -> convert_to_clvm_rs, both tree hashes
+fn conv_k(case: &Value, inputs: &Value) -> Value {
+    use chialisp::compiler::clvm::{convert_from_clvm_rs, convert_to_clvm_rs, sha256tree, NewStyleIntConversion};
+    use chialisp::compiler::srcloc::Srcloc;
+    let _guard = NewStyleIntConversion::new(case["mode"].as_bool().unwrap_or(true));
+    let mut a = Allocator::new();
+    let leaves: Vec<Value> = inputs["leaves"].as_array().unwrap().clone();
+    let n = build_shape(&mut a, &case["shape"], &mut leaves.iter());
+    let rich = match convert_from_clvm_rs(&mut a, Srcloc::start("*t*"), n) {
+        Ok(r) => r,
+        Err(_) => return json!({"err": true}),
+    };
+    let back = match convert_to_clvm_rs(&mut a, rich.clone()) {
+        Ok(m) => json!({"ok": tree_to_json(&a, m)}),
+        Err(_) => json!({"err": true}),
+    };
+    let h_rich = sha256tree(rich);
+    let h_classic = chialisp::classic::clvm_tools::sha256tree::sha256tree(&mut a, n);
+    json!({"back": back, "h_rich": to_json_bytes(&h_rich), "h_classic": to_json_bytes(h_classic.data())})
+}
+
+// equality / hash / encoding agreement for two rich atoms
+fn eqhash_k(_case: &Value, inputs: &Value) -> Value {
+    use chialisp::compiler::clvm::{convert_from_clvm_rs, convert_to_clvm_rs, NewStyleIntConversion};
+    use chialisp::compiler::srcloc::Srcloc;
+    use std::collections::hash_map::DefaultHasher;
+    use std::hash::{Hash, Hasher};
+    let _guard = NewStyleIntConversion::new(true);
+    let mut a = Allocator::new();
+    let mut mk = |a: &mut Allocator, v: &Value| {
+        if let Some(c) = v.get("conv") {
+            let n = a.new_atom(&bytes_of(c)).unwrap();
+            convert_from_clvm_rs(a, Srcloc::start("*t*"), n).unwrap()
+        } else {
+            rich_from_json(v)
+        }
+    };
+    let x = mk(&mut a, &inputs["a"]);
+    let y = mk(&mut a, &inputs["b"]);
+    let ex = convert_to_clvm_rs(&mut a, x.clone()).unwrap();
+    let ey = convert_to_clvm_rs(&mut a, y.clone()).unwrap();
+    let enc_eq = tree_to_json(&a, ex) == tree_to_json(&a, ey);
+    let mut hx = DefaultHasher::new();
+    let mut hy = DefaultHasher::new();
+    x.hash(&mut hx);
+    y.hash(&mut hy);
+    json!({"eq": x.equal_to(&y) && (*x == *y), "hash_eq": hx.finish() == hy.finish(), "enc_eq": enc_eq})
+}
+
 // assemble(text) -> tree (used to evaluate constant patterns natively)
 fn assemble_k(_case: &Value, inputs: &Value) -> Value {
     let mut a = Allocator::new();
@@ -213,6 +273,8 @@ pub fn dispatch(kernel: &str, case: &Value, inputs: &Value) -> Value {
         "assemble" => assemble_k(case, inputs),
         "int_from_bytes" => int_from_bytes_k(case, inputs),
         "decode" => decode_k(case, inputs),
+        "eqhash" => eqhash_k(case, inputs),
+        "conv" => conv_k(case, inputs),
         "run_both" => run_both_k(case, inputs),
         "encode" => encode_k(case, inputs),
         "path_optimizer" => path_optimizer_k(case, inputs),
